@@ -59,6 +59,12 @@ def cases(tier, rng):
             yield {'dtype': 'obj', 'default': {'callable': cname}, 'via': via, 'no_model': True,
                    'ops': [['add_key', [0]], ['get', [0]], ['is_set', [0]], ['add_key', [2]], ['get', [2]], ['set', [0], 5], ['get', [0]],
                            ['del_key', [0]], ['add_key', [0]], ['get', [0]], ['set', [2], {'callable': cname}], ['get', [2]], ['iterate']]}
+    # map keys that are numpy scalars next to the plain values they wrap (a nanosecond datetime64 and its epoch int are two keys)
+    for via in ('direct', 'manager'):
+        for a, b in (({'npdt': 5}, 5), (5, {'npdt': 5}), ({'npdt': 1700000000000000000}, 1700000000000000000)):
+            yield {'dtype': 'mapper', 'default': None, 'via': via, 'no_model': True,
+                   'ops': [['add_key', [0]], ['add_map', [0], a], ['get_map', [0], b], ['iterate_map', [0]], ['add_map', [0], b], ['get_map', [0], a],
+                           ['get_map', [0], b], ['iterate_map', [0]]]}
     yield {'dtype': 'mapper', 'default': None, 'via': 'direct',
            'ops': [['add_key', [0]], ['add_map', [0], 'a'], ['add_map', [0], {'t': [1, 2]}], ['get_map', [0], {'t': [1, 2]}],
                    ['iterate_map', [0]], ['add_key', [3, 0]], ['add_map', [3, 0], 'a'], ['get_map', [3, 0], 'b'], ['iterate_map', [3, 0]]]}
